@@ -230,45 +230,51 @@ func randomEvent(r *rand.Rand, i int) (traceLine, []byte) {
 	return ln, ev
 }
 
-// redactVia runs the real code for one line and projects the output.
-func redactVia(api, verName string, ev []byte) (observed, error) {
+// redactViaOut runs the real code for one line - preceded, immediately before the redaction proper, by an earlier
+// call of the process - and projects the output; also returns the redacted text.
+func redactViaOut(api, verName string, ev []byte, earlier func()) (obs observed, out []byte, err error) {
 	ver, err := gmsl.GetRoomVersion(gmsl.RoomVersion(verName))
 	if err != nil {
-		return observed{}, err
+		return observed{}, nil, err
 	}
-	var out []byte
+	if earlier == nil {
+		earlier = func() {}
+	}
 	if api == "pdu" {
 		p, err := ver.NewEventFromTrustedJSON(ev, false)
 		if err != nil {
-			return observed{}, fmt.Errorf("parse: %w", err)
+			return observed{}, nil, fmt.Errorf("parse: %w", err)
 		}
 		// through one of the sibling constructors (chosen from the event text, so that a re-execution chooses alike)
 		switch len(ev) % 3 {
 		case 1:
 			if p, err = ver.NewEventFromTrustedJSONWithEventID(p.EventID(), ev, false); err != nil {
-				return observed{}, fmt.Errorf("parse with event ID: %w", err)
+				return observed{}, nil, fmt.Errorf("parse with event ID: %w", err)
 			}
 		case 2:
 			hj, err := p.ToHeaderedJSON()
 			if err != nil {
-				return observed{}, fmt.Errorf("headered: %w", err)
+				return observed{}, nil, fmt.Errorf("headered: %w", err)
 			}
 			if p, err = gmsl.NewEventFromHeaderedJSON(hj, false); err != nil {
-				return observed{}, fmt.Errorf("parse headered: %w", err)
+				return observed{}, nil, fmt.Errorf("parse headered: %w", err)
 			}
 		}
+		earlier()
 		p.Redact()
 		out = p.JSON()
 	} else {
+		earlier()
 		if out, err = ver.RedactEventJSON(ev); err != nil {
-			return observed{}, err
+			return observed{}, nil, err
 		}
 	}
 	red, err := decodeObj(out)
 	if err != nil {
-		return observed{}, fmt.Errorf("output is not a JSON object: %w", err)
+		return observed{}, out, fmt.Errorf("output is not a JSON object: %w", err)
 	}
-	return observe(red)
+	obs, err = observe(red)
+	return obs, out, err
 }
 
 func record(a *hx.Args) error {
@@ -279,10 +285,17 @@ func record(a *hx.Args) error {
 	rng := rand.New(rand.NewSource(a.Seed))
 	for i := 0; i < a.N; i++ {
 		ln, ev := randomEvent(rng, i)
+		// the recorded call is not the first of its process: one earlier call (by seed and position) precedes it,
+		// of which the recorded result must be independent (Redaction_trace.tla knows nothing of it)
+		call := allCalls[int((int64(i)*7+a.Seed*31)%int64(len(allCalls))+int64(len(allCalls)))%len(allCalls)]
 		res := hx.Safely(i, func() hx.Result {
-			got, err := redactVia(ln.API, ln.Ver, ev)
+			got, out, err := redactViaOut(ln.API, ln.Ver, ev, func() { perform(call, versionFor(call, ln.Ver, i)) })
 			if err != nil {
 				return hx.Result{OK: false, Key: "C05/" + ln.API + "/error", What: "redaction of a well-formed event failed: " + err.Error()}
+			}
+			h := &history{r: &rec{Ver: ln.Ver, Type: ln.Type}, ran: []histCall{call}}
+			if f := h.leaked(map[string]string{"json": "RedactEventJSON", "pdu": "PDU.Redact"}[ln.API], out); f != nil {
+				return hx.Result{OK: false, Key: f.key, What: f.what}
 			}
 			ln.Got = got
 			return hx.Result{OK: true}
